@@ -15,7 +15,7 @@ VARIABLES cfg, ok, store, n, obs
 vars == <<cfg, ok, store, n, obs>>
 
 NoCfg == [schemes |-> <<>>, def |-> [c \in Cats |-> "unset"], depK |-> [c \in Cats |-> "unset"],
-          depL |-> [c \in Cats |-> {}], opts |-> [k \in Cats \X AllNames |-> NoKw]]
+          depL |-> [c \in Cats |-> {}], opts |-> [k \in Cats \X OptNames |-> NoKw]]
 Obs0 == [op |-> "init", cat |-> "none", pw |-> "", h |-> <<>>, x |-> Unset, res |-> <<"ok">>]
 H(s, r, p, f) == [scheme |-> s, rounds |-> r, pw |-> p, flagged |-> f]
 NoneH == H("None", Unset, "", FALSE)     \* "no new hash"
@@ -88,7 +88,7 @@ ForeignHashes == UNION {{H(s, r, p, f) : r \in RoundVals[s], p \in Pws, f \in (I
 \* ---- exhaustive configuration space ----
 ExCfgs == { [NoCfg EXCEPT !.schemes = ss, !.def = d, !.depK = [c \in Cats |-> dp[c][1]], !.depL = [c \in Cats |-> dp[c][2]]] :
               ss \in ExSchemeSeqs, d \in [Cats -> ExDefs], dp \in [Cats -> ExDeps] }
-ExOptCfgs(base) == UNION {{ [base EXCEPT !.opts = [k \in Cats \X AllNames |-> IF k[2] = s THEN (IF k[1] = "none" THEN k1 ELSE k2) ELSE NoKw]] :
+ExOptCfgs(base) == UNION {{ [base EXCEPT !.opts = [k \in Cats \X OptNames |-> IF k[2] = s THEN (IF k[1] = "none" THEN k1 ELSE k2) ELSE NoKw]] :
                               k1 \in KwChoices[s], k2 \in KwChoices[s] } : s \in AllNames}
 
 Next ==
@@ -112,7 +112,8 @@ RandCfg(d) ==
         def  |-> Eager(Cats, LAMBDA c : IF RandomElement(1..3) = 1 THEN RandomElement(nm \cup {RandomElement(AllNames)}) ELSE "unset"),
         depK |-> Eager(Cats, LAMBDA c : RandomElement({"unset", "unset", "auto", "list"})),
         depL |-> Eager(Cats, LAMBDA c : IF RandomElement(1..10) = 1 THEN RandomElement(SUBSET AllNames) ELSE RandomElement(SUBSET nm)),
-        opts |-> Eager(Cats \X AllNames, LAMBDA k : IF k[2] \in nm /\ RandomElement(1..2) = 1 THEN RandomElement(KwChoices[k[2]]) ELSE NoKw)]
+        opts |-> Eager(Cats \X OptNames, LAMBDA k : IF k[2] = "all" THEN (IF RandomElement(1..4) = 1 THEN RandomElement(KwChoices["all"]) ELSE NoKw)
+                                                  ELSE IF k[2] \in nm /\ RandomElement(1..2) = 1 THEN RandomElement(KwChoices[k[2]]) ELSE NoKw)]
 Fix(c) == [c EXCEPT !.depL = Eager(Cats, LAMBDA k : IF c.depK[k] = "list" THEN c.depL[k] ELSE {})]
 
 SimNext ==
